@@ -171,7 +171,7 @@ fn plan(p: &mut Plan<'_>) {
         }
         "C20" => {
             p.part(netsim::NetSim { mode: netsim::Mode::C20 }, 250, 6_000, "each seeded whole-stack case (handshake, transfer, loss, close at a drawn time, idle expiry, path loss) is executed seven times under exporter configurations no-op / discard-all / capturing / capturing+raw / filtered / shipped LegacySeqLogger into memory / the same logger into a sink that fails after a seed-drawn number of bytes (short write, then errors); wire and application traces must be identical; every captured event must serialise with the mandatory fields, parse back equal and convert to the legacy form without panicking; non-trivial = faults fired and progress; distinct = trace hash");
-            p.assumptions = vec!["event time stamps are wall-clock and excluded from comparisons", "for the legacy logger (own writer task) only the application trace is compared", "event-builder field-value enumeration is not claimed (input enumeration)"];
+            p.assumptions = vec!["event time stamps are wall-clock and excluded from comparisons", "the legacy logger (own writer task, two of the eight configurations) is judged on no-panic and record well-formedness only", "event-builder field-value enumeration is not claimed (input enumeration)"];
         }
         "C18" => {
             p.part(paramsim::ParamSim, 300_000, 30_000_000, "one handshake seen from one endpoint: the peer's transport-parameter extension built id by id from a legal baseline plus 0..3 injections (absent mandatory id, value just beyond a bound, role-inappropriate id, duplicate, unknown/GREASE id, wrong-length / truncated / trailing-byte values, over-long connection ids, lying lengths, cid mismatch, Retry variants), delivered to the real parser and Parameters in both arrival orders with 0..3 waiters, spurious polls and connection errors at drawn points; reference = RFC 9000 tables; non-trivial = at least one injection or waiter interaction; distinct = hash of the op/result history");
